@@ -28,7 +28,13 @@ func main() {
 	repo := flag.String("repo", "/repo", "repository root")
 	verif := flag.String("verif", "/verif", "verif dir (known_findings.txt, evidence/)")
 	list := flag.Bool("list", false, "list properties")
+	dumpKnown := flag.String("dump-known", "", "print known_funcs.go for the given package directory and exit")
 	flag.Parse()
+	if *dumpKnown != "" {
+		repoDir = *repo
+		dumpKnownFuncs(*dumpKnown)
+		return
+	}
 	if *list {
 		var ids []string
 		for id := range props {
@@ -61,6 +67,15 @@ func main() {
 			}
 		}()
 		pc.run(res)
+		if pubOverlayDone && (len(lastInline.Expanded) > 0 || len(lastInline.Skipped) > 0 || lastInline.Dropped != "") {
+			res.Extra["helper_expansion"] = lastInline
+			for _, e := range lastInline.Expanded {
+				fmt.Println("NOTE: expanded new helper " + e)
+			}
+			if lastInline.Dropped != "" {
+				fmt.Println("NOTE: helper expansion dropped: " + lastInline.Dropped)
+			}
+		}
 		if f := os.Getenv("VERIF_AUDIT_SUMMARY"); f != "" {
 			if b, err := os.ReadFile(f); err == nil {
 				var v interface{}
